@@ -65,4 +65,15 @@ theorem commit_order_independent (D U W : List Str) (lo idx : Nat) (side ch ch' 
   intro p
   rw [commit_liveAt o1 hok h1 p, commit_liveAt o2 hok' h2 p, specAt_perm _ ch ch' hp hcl.nodup p]
 
+/-- the reference semantics itself does not depend on the order of the change map. -/
+theorem spec_apply_perm (st : Spec.State) (ch ch' : VMap) (hp : ch'.Perm ch) (hn : NodupP ch)
+    (hk : Spec.NodupK st) : Spec.view (Spec.apply st ch') = Spec.view (Spec.apply st ch) := by
+  have hn' : NodupP ch' := hp.symm.pairwise hn (fun {x y} h => fun e => h e.symm)
+  have hk1 := Spec.apply_nodup st ch' hk
+  have hk2 := Spec.apply_nodup st ch hk
+  apply sortedK_ext _ _ (view_sorted _ hk1) (view_sorted _ hk2)
+  rintro ⟨p, v⟩
+  rw [mem_view, mem_view, mem_state_iff_get _ hk1, mem_state_iff_get _ hk2,
+    spec_apply_get st ch' hn' p, spec_apply_get st ch hn p, specAt_perm _ ch ch' hp hn p]
+
 end OnosVerif.Config
